@@ -298,7 +298,7 @@ class ComposedNode(ConfigNode):
                 return ConfigNode.ayns.on_merge_impl(self, path, other)
 
             if other.ayns.delete:
-                removed = set()
+                removed = set(self.__dict__.get('_dropped_paths', ())) # (a function node given another target has dropped its arguments already)
                 def maybe_keep(child_path, node):
                     # child_path is absolute (it starts with the path of self), "other" is looked up relative to itself
                     other_node = other.ayns.get_first_not_missing_node(child_path[len(path):])
